@@ -323,6 +323,8 @@ def trim_long_fields(
 
   def traverse(value, state: daglish.State):
     if isinstance(value, config_lib.Buildable):
+      # Trim the fields of a copy, so that the input is not modified.
+      value = copy.copy(value)
       for argument in set(config_lib.ordered_arguments(value)):
         field = getattr(value, argument)
         if not isinstance(field, (config_lib.Buildable, list, tuple, dict)):
